@@ -243,6 +243,21 @@ def default_messages_pass(env, prog, label):
 def run(env):
     harness.tag_errors(True)
     rng = env.rng
+    for i, (label, build) in enumerate(gen_types.directed_shapes()):
+        if i % env.nshards != env.shard:
+            continue
+        prog = Program(build(gen_types.Gen(rng, max_depth=2)))
+        try:
+            prog.load()
+        except Exception:
+            env.count("program_load_failed")
+            continue
+        try:
+            for _ in range(3):  # (options are drawn inside: aliaser, additional_properties, coercion)
+                check_program(env, prog, "directed:" + label, ndata=32)
+            env.count("directed_shape_programs")
+        finally:
+            prog.unload()
     n = env.n(5000, 100000)
     small = [b for _, b in gen_types.enumerate_small(depth2=False)]
     for j in range(n):
